@@ -442,6 +442,71 @@ def method_return_attr_store(src, v0):
   return False
 
 
+def _deep_repr(v, depth=0, seen=None):
+  """an ORDERED structural description of an abstract value, independent of pytype's own hashing"""
+  seen = seen or set()
+  if depth > 6 or id(v) in seen:
+    return "..."
+  seen = seen | {id(v)}
+  cn = type(v).__name__
+  pv = getattr(v, "pyval", None)
+  try:
+    if cn in ("Tuple", "List") and isinstance(pv, (list, tuple)) and getattr(v, "is_concrete", True):
+      return "%s(%s)" % (cn, ", ".join("{%s}" % "|".join(sorted(_deep_repr(b.data, depth + 1, seen)
+                                                                 for b in var.bindings)) for var in pv))
+    if cn == "Dict" and isinstance(pv, dict):
+      return "Dict(%s)" % ", ".join("%r: {%s}" % (k, "|".join(sorted(_deep_repr(b.data, depth + 1, seen)
+                                                                      for b in var.bindings)))
+                                    for k, var in pv.items())
+    if cn == "ConcreteValue":
+      return "%s:%r" % (type(pv).__name__, pv)
+    name = getattr(v, "full_name", None) or getattr(v, "name", cn)
+    params = getattr(v, "_instance_type_parameters", None)
+    if params:
+      items = []
+      for k in sorted(params.keys()):
+        try:
+          var = params[k]
+          items.append("%s={%s}" % (k, "|".join(sorted(_deep_repr(b.data, depth + 1, seen) for b in var.bindings))))
+        except Exception:  # pylint: disable=broad-except
+          items.append("%s=?" % k)
+      return "%s<%s>[%s]" % (cn, name, ", ".join(items))
+    return "%s<%s>" % (cn, name)
+  except Exception:  # pylint: disable=broad-except
+    return cn
+
+
+def cache_key_collision(src):
+  """Probe: does InterpreterFunction._hash_call give the SAME call-cache key to two calls of one function whose
+  arguments differ (compared by an ordered structural description that does not use pytype's hashing)?
+  Returns a description of the first collision or None."""
+  from pytype import config, io  # pylint: disable=import-outside-toplevel
+  from pytype.abstract import _interpreter_function as ifn  # pylint: disable=import-outside-toplevel
+  seen = {}
+  found = []
+  orig = ifn.InterpreterFunction._hash_call
+
+  def hook(self, callargs, frame):
+    key = orig(self, callargs, frame)
+    try:
+      desc = tuple(sorted((n, "|".join(sorted(_deep_repr(b.data) for b in var.bindings)))
+                          for n, var in callargs.items()))
+      old = seen.setdefault((id(self), key), desc)
+      if old != desc and not found:
+        found.append("%s: one cache key for arguments %s and %s" % (self.name, old, desc))
+    except Exception:  # pylint: disable=broad-except
+      pass
+    return key
+  ifn.InterpreterFunction._hash_call = hook
+  try:
+    io.generate_pyi(src, config.Options.create(python_version=(3, 12)))
+  except Exception:  # pylint: disable=broad-except
+    pass
+  finally:
+    ifn.InterpreterFunction._hash_call = orig
+  return found[0][:400] if found else None
+
+
 def solver_anomaly(src, name):
   """Probe for a solver anomaly on the module-level name `name`: a binding of it that is NOT visible at the exit
   point although it is visible at a CFG node n and n has a successor m, on the way to the exit, that carries no
@@ -488,6 +553,7 @@ def solver_anomaly(src, name):
 
 
 FP_CACHE = "call-cache:cached-return-invisible-in-other-branch"
+FP_CACHE_KEY = "call-cache:one-key-for-different-arguments"
 FP_EMPTY = "empty-value:call-result-nothing-treated-as-no-value"
 FP_SIMPLIFY = "simplify-variable:merged-bindings-joined-by-conjunction"
 FP_CLOSURE = "closure-cell:load-deref-shares-or-narrows-the-cell"
@@ -522,7 +588,9 @@ def classify(src, calls, v0, known):
   fp = None
   # each probe switches ONE pytype mechanism off / repairs it; the violation disappearing names the mechanism
   if not still(src, skip_repeat_calls=False):
-    fp = FP_CACHE          # InterpreterFunction._call_cache
+    # InterpreterFunction._call_cache: a legitimate hit whose cached bindings are invisible here (the known
+    # mechanism), or a key shared by calls with different arguments (a defect of the key, never listed)
+    fp = FP_CACHE_KEY if cache_key_collision(src) else FP_CACHE
   elif not still(src, empty_to_any=True):
     fp = FP_EMPTY          # a call / operator result that is the Empty value
   elif not still(src, fix_simplify=True):
